@@ -5,8 +5,9 @@
 
   The state is the Python dict `DOK.data` as an insertion-ordered association list
   (`data[k] = v` on an existing key keeps its position, a new key is appended, `del data[k]` removes
-  it).  Keys are tuples of Python ints, so `DKey = List Int`: `_fancy_setitem` stores the index
-  entries it is given *without* normalising them, and the model does the same.
+  it).  Keys are tuples of Python ints, so `DKey = List Int` (a model with natural-number keys could not
+  have expressed the raw negative keys `_fancy_setitem` stored before /repo commit 6ad05a9; today every
+  path normalises its indices first and the theorems show that only in-range keys are ever stored).
 
   Slice bounds come from a parameter `bounds` so that the theorems can be stated once for every
   bounds function; the model of the code is the instance `bounds := Gen.dokSliceBounds`, which
@@ -198,8 +199,8 @@ def storeAll [DecidableEq α] (fill : α) : List (DKey × α) → List (DKey × 
   | es, [] => es
   | es, (k, x) :: ws => storeAll fill (store fill es k x) ws
 
-/-- the checks of `__setitem__` / `__getitem__` on a tuple of index lists.  The lists arrive as
-Python lists: an empty one becomes a float64 array and is rejected by the integer-dtype test. -/
+/-- the checks of `__setitem__` / `__getitem__` on a tuple of index lists: one list per axis
+(else NotImplementedError), all of one length (else IndexError); returns that length -/
 def fancyCheck (shape : List Nat) (idxs : List (List Int)) : Except Err Nat :=
   if idxs.length ≠ shape.length then .error .notImplemented
   else
@@ -207,31 +208,15 @@ def fancyCheck (shape : List Nat) (idxs : List (List Int)) : Except Err Nat :=
     | [] => .error .index   -- `idxs[0]` of an empty tuple (0-d array, key `()`)
     | l :: _ => if idxs.any (fun m => m.length ≠ l.length) then .error .index else .ok l.length
 
-/-- the values `_fancy_setitem` pairs with `n` listed keys: a 0-d value is repeated (`np.full`), a 1-d
-value must have exactly `n` entries, anything else is a ValueError -/
+/-- the values `_fancy_setitem` pairs with `n` listed keys: a 0-d or one-element 1-d value is repeated
+(`np.full`), any other 1-d value must have exactly `n` entries, anything else is a ValueError -/
 def fancyVals (v : Val α) (n : Nat) : Except Err (List α) :=
   match v.shape with
   | [] => (match v.flat with | x :: _ => .ok (List.replicate n x) | [] => .error .internal)
-  | [m] => if m = n then .ok v.flat else .error .value
+  | [m] =>
+    if m = 1 then (match v.flat with | x :: _ => .ok (List.replicate n x) | [] => .error .internal)
+    else if m = n then .ok v.flat else .error .value
   | _ => .error .value
-
-def setFancy [DecidableEq α] (d : DOK α) (idxs : List (List Int)) (v : Val α) : DOK α × Option Err :=
-  match fancyCheck d.shape idxs with
-  | .error e => (d, some e)
-  | .ok n =>
-    if n = 0 then (d, some .index)   -- "Indices must be sequences of integer types!"
-    else
-      match fancyVals v n with
-      | .error e => (d, some e)
-      | .ok xs => ({ d with entries := storeAll d.fill d.entries ((zipKeys idxs n).zip xs) }, none)
-
-/-- `d[i0, i1, ...]` with one integer per axis: `normalize_index`, then the element -/
-def getInt (d : DOK α) (key : List Int) : Except Err α :=
-  match normalizeKey (key.map .int) d.shape with
-  | .error e => .error e
-  | .ok nk =>
-    if key.length ≠ d.shape.length then .error .internal   -- not an element read
-    else .ok (alookup d.entries d.fill (nk.map fun p => match p.1 with | .int n => n | .slice _ _ _ => 0))
 
 /-- `normalize_index` on one index list: every entry in `[-dim, dim)` (else IndexError), negative
 entries count from the end -/
@@ -251,6 +236,31 @@ def normLists : List (List Int) → List Nat → Except Err (List (List Int))
       | .ok xs => .ok (x :: xs)
   | _, _ => .error .internal
 
+/-- the tail of `_fancy_setitem`: the value rule, then one store (or delete) per listed key, in order -/
+def fancyStore [DecidableEq α] (d : DOK α) (keys : List DKey) (v : Val α) : DOK α × Option Err :=
+  match fancyVals v keys.length with
+  | .error e => (d, some e)
+  | .ok xs => ({ d with entries := storeAll d.fill d.entries (keys.zip xs) }, none)
+
+/-- `d[idx0, idx1, …] = value` with one integer list per axis: the checks of `__setitem__`, then
+`_fancy_setitem`: the lists go through `normalize_index` (bounds check, negative entries), then the
+listed keys are stored -/
+def setFancy [DecidableEq α] (d : DOK α) (idxs : List (List Int)) (v : Val α) : DOK α × Option Err :=
+  match fancyCheck d.shape idxs with
+  | .error e => (d, some e)
+  | .ok n =>
+    match normLists idxs d.shape with
+    | .error e => (d, some e)
+    | .ok idxs' => fancyStore d (zipKeys idxs' n) v
+
+/-- `d[i0, i1, ...]` with one integer per axis: `normalize_index`, then the element -/
+def getInt (d : DOK α) (key : List Int) : Except Err α :=
+  match normalizeKey (key.map .int) d.shape with
+  | .error e => .error e
+  | .ok nk =>
+    if key.length ≠ d.shape.length then .error .internal   -- not an element read
+    else .ok (alookup d.entries d.fill (nk.map fun p => match p.1 with | .int n => n | .slice _ _ _ => 0))
+
 /-- `_fancy_getitem`: the index lists go through `normalize_index`, then each listed key is looked up -/
 def getFancy (d : DOK α) (idxs : List (List Int)) : Except Err (List α) :=
   match fancyCheck d.shape idxs with
@@ -260,21 +270,27 @@ def getFancy (d : DOK α) (idxs : List (List Int)) : Except Err (List α) :=
     | .error e => .error e
     | .ok idxs' => .ok ((zipKeys idxs' n).map (alookup d.entries d.fill))
 
-/-- boolean-mask assignment `d[mask] = value` (mask an ndarray of the array's shape with at least
-one element per axis): `normalize_index` turns the mask into index arrays, and `_setitem` rejects
-them — after the rank test on the value. -/
-def setMask (d : DOK α) (_mask : List Bool) (v : Val α) : DOK α × Option Err :=
-  if 0 < v.shape.length then (d, some .value) else (d, some .index)
+/-- all in-range keys in row-major order -/
+def allKeys : List Nat → List DKey
+  | [] => [[]]
+  | d :: ds => (List.range d).flatMap fun (i : Nat) => (allKeys ds).map fun r => Int.ofNat i :: r
+
+/-- the keys a boolean mask (row-major over the shape) selects, in row-major order: `zip(*np.nonzero(mask))` -/
+def maskKeys (shape : List Nat) (m : List Bool) : List DKey :=
+  ((allKeys shape).zip m).filterMap fun kb => if kb.2 then some kb.1 else none
+
+/-- boolean-mask assignment `d[mask] = value` on an array of rank ≥ 1: a mask of another shape is an
+IndexError; otherwise `np.nonzero(mask)` becomes the tuple of index arrays and takes the index-list
+path (its entries are in range, so `normalize_index` leaves them as they are) -/
+def setMask [DecidableEq α] (d : DOK α) (m : List Bool) (v : Val α) : DOK α × Option Err :=
+  if d.shape = [] then (d, some .internal)   -- rank 0: not this branch of `__setitem__` (outside the model)
+  else if m.length ≠ prod d.shape then (d, some .index)
+  else fancyStore d (maskKeys d.shape m) v
 
 def nnz (d : DOK α) : Nat := d.entries.length
 
 /-- value at a key: stored value, else the fill value -/
 def get (d : DOK α) (k : DKey) : α := alookup d.entries d.fill k
-
-/-- all in-range keys in row-major order -/
-def allKeys : List Nat → List DKey
-  | [] => [[]]
-  | d :: ds => (List.range d).flatMap fun (i : Nat) => (allKeys ds).map fun r => Int.ofNat i :: r
 
 /-- row-major dense listing (what `todense().ravel()` gives when every stored key is in range) -/
 def todense (d : DOK α) : List α := (allKeys d.shape).map (get d)
@@ -305,36 +321,20 @@ instance [DecidableEq α] (d : DOK α) : Decidable (Canon d) := by unfold Canon;
 
 /-- one assignment `d[key] = value` -/
 inductive Op (α : Type) where
-  /-- key of integers and slices (shorter keys are padded with full slices); `bare`: the key is not a
-  plain tuple of integers and slices — it is a single entry written without a tuple (`d[3]`, `d[1:2]`)
-  or it contained an Ellipsis (expanded into full slices by the caller); otherwise it is a tuple
-  (`d[3,]`, `d[0, 1:2]`) -/
-  | set (bare : Bool) (key : List KeyPart) (v : Val α)
+  /-- key of integers and slices (shorter keys are padded with full slices; an Ellipsis is expanded into
+  full slices by the caller) — also the empty tuple, and a tuple of integers on a 1-d array -/
+  | set (key : List KeyPart) (v : Val α)
   /-- one integer list per axis -/
   | fancy (idxs : List (List Int)) (v : Val α)
   /-- boolean mask of the array's shape (row-major) -/
   | mask (m : List Bool) (v : Val α)
   deriving Repr
 
-/-- the integers of a key that consists of integers only -/
-def allInts : List KeyPart → Option (List Int)
-  | [] => some []
-  | .int n :: ps => (allInts ps).map (n :: ·)
-  | .slice _ _ _ :: _ => none
-
-/-- "1D fancy indexing" in `__setitem__`: on a 1-d array a *tuple* of integers is taken for an index
-list (`key = (key,)`) and goes to `_fancy_setitem` -/
-def tupleRoute (shape : List Nat) (bare : Bool) (key : List KeyPart) : Option (List Int) :=
-  if shape.length = 1 ∧ bare = false then allInts key else none
-
+/-- `DOK.__setitem__`: a boolean ndarray of the array's rank becomes index arrays; a tuple all of whose
+entries are index lists (or, on a 1-d array, a bare list of integers) goes to `_fancy_setitem`; every
+other key — integers, slices, the empty tuple — goes through `normalize_index` to `_setitem` -/
 def step [DecidableEq α] (d : DOK α) : Op α → DOK α × Option Err
-  | .set bare key v =>
-    match tupleRoute d.shape bare key with
-    | some ints => setFancy d [ints] v
-    | none =>
-      -- `all(isinstance(k, Iterable) for k in ())` is true: the empty tuple is taken for a tuple of index lists
-      if key = [] ∧ bare = false then setFancy d [] v
-      else setitem d key v
+  | .set key v => setitem d key v
   | .fancy idxs v => setFancy d idxs v
   | .mask m v => setMask d m v
 
